@@ -103,7 +103,10 @@ def solve_goal(goal):
         except SymPyException:
             return False
 
-        return lhs != rhs
+        # Structural difference of the two sides says nothing about their values:
+        # accept only when the difference is a constant that SymPy shows non-zero.
+        diff = lhs - rhs
+        return len(diff.free_symbols) == 0 and diff.is_zero is False
     elif goal.is_equals():
         try:
             lhs, rhs = convert(goal.lhs), convert(goal.rhs)
